@@ -6,11 +6,15 @@ import traceback
 
 
 def main(argv):
+    if argv and argv[0] == "selftest":
+        from selftest import runner
+        return runner.main(argv[1:])
     ap = argparse.ArgumentParser(prog="check")
     ap.add_argument("property")
     ap.add_argument("--tier", default=os.environ.get("VERIF_TIER", "quick"), choices=["quick", "thorough"])
     ap.add_argument("--replay")
     ap.add_argument("--seed", type=int, default=None)
+    ap.add_argument("--json", action="store_true")
     ap.add_argument("rest", nargs="*")
     args = ap.parse_args(argv)
     from sim import core, engines, describe
@@ -23,7 +27,7 @@ def main(argv):
         return 2
     eng = engines.PROPERTY_ENGINE[prop]
     if args.replay:
-        return core.main_replay(prop, eng, args.replay)
+        return core.main_replay(prop, eng, args.replay, args.json)
     seed = args.seed if args.seed is not None else int(os.environ.get("VERIF_SEED", "0") or 0)
     d = describe.DESCRIBE[prop]
     return core.check(prop, eng, args.tier, seed, d["budgets"], d)
